@@ -127,6 +127,17 @@ Definition set_key (s : stream) (k iv : bytes) : sres stream :=
          recv_buf := recv_buf s; bytes_read := bytes_read s; total_msg := total_msg s; in_msg := in_msg s;
          before_secret := before_secret s; peer_addr := peer_addr s |}.
 
+(* SetConnection: the stream continues over another connection; only the recorded peer
+   address changes - the handshake digests keep running over both connections *)
+Definition set_connection (s : stream) (addr : bytes) : stream :=
+  {| key := key s; encrypted := encrypted s; authenticated := authenticated s;
+     enc_iv := enc_iv s; dec_iv := dec_iv s; enc_ctr := enc_ctr s; dec_ctr := dec_ctr s;
+     fin_send_aad := fin_send_aad s; fin_recv_aad := fin_recv_aad s;
+     send_dg := send_dg s; recv_dg := recv_dg s;
+     send_buf := send_buf s; send_eom := send_eom s;
+     recv_buf := recv_buf s; bytes_read := bytes_read s; total_msg := total_msg s; in_msg := in_msg s;
+     before_secret := before_secret s; peer_addr := addr |}.
+
 (* FinalizeDigests *)
 Definition finalize_digests (s : stream) : stream :=
   upd_send s (enc_ctr s) (fin_send_aad s) (dg_finalize (send_dg s)) (dg_finalize (recv_dg s)).
